@@ -16,7 +16,9 @@ pub struct Rng {
 /// by Knuth and H. W. Lewis.
 impl Rng {
     pub fn new(seed: u64) -> Self {
-        Rng { seed }
+        Rng {
+            seed: seed % MODULUS,
+        }
     }
 
     pub fn random(&mut self) -> f64 {
